@@ -145,6 +145,38 @@ def replyToJson : Reply → Json
   | .noBotMessage => Json.mkObj [("noBotMessage", .bool true)]
   | .unmodelled => Json.mkObj [("unmodelled", .bool true)]
 
+def cfgOfJson (c : Json) : Except String Cfg := do
+  let action := (optStr c "action").getD "scripted_rail"
+  pure {
+    input := ← railsOfJson "input" action ((c.getObjVal? "input").toOption.getD (Json.arr #[])),
+    output := ← railsOfJson "output" action ((c.getObjVal? "output").toOption.getD (Json.arr #[])),
+    retrieval := ← railsOfJson "retrieval" action ((c.getObjVal? "retrieval").toOption.getD (Json.arr #[])),
+    exceptions := match c.getObjVal? "exceptions" with | .ok (.bool b) => b | _ => false,
+    refusal := (optStr c "refusal").getD "refused",
+    internalError := Generated.C16.internalError }
+
+def callOfJson (j : Json) : Except String Call := do
+  let opts ← optsOfJson ((j.getObjVal? "opts").toOption.getD .null)
+  let user ← (← j.getObjVal? "user").getStr?
+  let bot := optStr j "bot"
+  let d ← j.getObjVal? "dialog"
+  let text ← (← d.getObjVal? "text").getStr?
+  let dlg : Dialog ← match optStr d "kind" with
+    | some "general" => pure (Dialog.general text)
+    | some "intent" => pure (Dialog.intent ((optStr d "flow").getD "greeting") ((optStr d "bot_intent").getD "express greeting")
+        (match d.getObjVal? "predefined" with | .ok (.bool b) => b | _ => false) text)
+    | _ => throw "bad dialog"
+  pure { opts := opts, user := user, bot := bot, dlg := dlg }
+
+def outToJson : Option PipelineOpts.Out → Json
+  | none => Json.mkObj [("res", "guard-error")]
+  | some o =>
+    Json.mkObj [("res", "ok"), ("trace", Json.arr (o.trace.map stepToJson).toArray),
+      ("log", Json.arr (o.log.map evToJson).toArray), ("reply", replyToJson o.reply),
+      ("blocker", match o.blocker with | some (c, n) => Json.arr #[.str (catToString c), .str n] | none => .null),
+      ("skip_after", .bool o.skipAfter),
+      ("genlog", genlogToJson (compute K o.log))]
+
 def handle (op : String) (j : Json) : Except String Json := do
   match op with
   | "genlog" =>
@@ -152,32 +184,15 @@ def handle (op : String) (j : Json) : Except String Json := do
     let log ← a.toList.mapM evOfJson
     pure (genlogToJson (compute K log))
   | "turn" =>
-    let c ← j.getObjVal? "cfg"
-    let action := (optStr c "action").getD "scripted_rail"
-    let cfg : Cfg := {
-      input := ← railsOfJson "input" action ((c.getObjVal? "input").toOption.getD (Json.arr #[])),
-      output := ← railsOfJson "output" action ((c.getObjVal? "output").toOption.getD (Json.arr #[])),
-      retrieval := ← railsOfJson "retrieval" action ((c.getObjVal? "retrieval").toOption.getD (Json.arr #[])),
-      exceptions := match c.getObjVal? "exceptions" with | .ok (.bool b) => b | _ => false,
-      refusal := (optStr c "refusal").getD "I'm sorry, I can't respond to that.",
-      internalError := Generated.C16.internalError }
-    let opts ← optsOfJson ((j.getObjVal? "opts").toOption.getD .null)
-    let user ← (← j.getObjVal? "user").getStr?
-    let bot := optStr j "bot"
-    let d ← j.getObjVal? "dialog"
-    let text ← (← d.getObjVal? "text").getStr?
-    let dlg : Dialog ← match optStr d "kind" with
-      | some "general" => pure (Dialog.general text)
-      | some "intent" => pure (Dialog.intent ((optStr d "flow").getD "greeting") ((optStr d "bot_intent").getD "express greeting")
-          (match d.getObjVal? "predefined" with | .ok (.bool b) => b | _ => false) text)
-      | _ => throw "bad dialog"
-    match turn Generated.C16.guards cfg opts user bot dlg with
+    let cfg ← cfgOfJson (← j.getObjVal? "cfg")
+    let c ← callOfJson j
+    pure (outToJson (turn Generated.C16.guards cfg c.opts c.user c.bot c.dlg))
+  | "session" =>
+    let cfg ← cfgOfJson (← j.getObjVal? "cfg")
+    let cs ← (← (← j.getObjVal? "calls").getArr?).toList.mapM callOfJson
+    match session Generated.C16.guards cfg false cs with
     | none => pure (Json.mkObj [("res", "guard-error")])
-    | some o =>
-      pure (Json.mkObj [("res", "ok"), ("trace", Json.arr (o.trace.map stepToJson).toArray),
-        ("log", Json.arr (o.log.map evToJson).toArray), ("reply", replyToJson o.reply),
-        ("blocker", match o.blocker with | some (c, n) => Json.arr #[.str (catToString c), .str n] | none => .null),
-        ("genlog", genlogToJson (compute K o.log))])
+    | some os => pure (Json.mkObj [("res", "ok"), ("calls", Json.arr (os.map fun o => outToJson (some o)).toArray)])
   | _ => throw s!"unknown op C16.{op}"
 
 end NemoVerif.Drive.C16
